@@ -43,6 +43,11 @@ func (rs *requestStream) Read(p []byte) (int, error) {
 		err error
 	)
 	if rs.header.ContentLength() == -1 {
+		if rs.chunkedEOF {
+			// The body has ended: whatever follows on the connection belongs
+			// to the next request and must not be parsed as another chunk.
+			return 0, io.EOF
+		}
 		if rs.chunkLeft == 0 {
 			chunkSize, err := parseChunkSize(rs.reader)
 			if err != nil {
